@@ -7,18 +7,12 @@ open DSymVerif DSymVerif.Proto
 namespace DrvC14
 open DSymVerif.Inv DSymVerif.SpecC14
 
-/-- model payload of one `abelian_invariants` call and the largest intermediate absolute value.
-    Payload `-` when an intermediate leaves ±2^62 (excluded from the model comparison, DESIGN §5.6). -/
-def modelTok (n : Nat) (rels : List (List Int)) : String × Nat :=
-  let r := abelianInvariantsB n rels
-  if r.2 ≥ safeBound then ("-", r.2) else
-  match r.1 with
-  | .ok l => (encNats l, r.2)
-  | .panic => ("PANIC", r.2)
-  | .err => ("DIVERGE", r.2)
-
-/-- the `isize` computation cannot hold some intermediate value -/
-def overflows (bound : Nat) : Bool := bound > 9223372036854775807
+/-- model payload of one `abelian_invariants` call -/
+def modelTok (n : Nat) (rels : List (List Int)) : String :=
+  match abelianInvariants n rels with
+  | .ok l => encNats l
+  | .panic => "PANIC"
+  | .err => "DIVERGE"
 
 def inDomain (n : Nat) (rels : List (List Int)) : Bool := rels.all (wordInRange n)
 
@@ -29,14 +23,6 @@ def specOne (n : Nat) (rels : List (List Int)) (out : Option (List Nat)) : Strin
   else match out with
     | none => fail "panic-inside-the-domain"
     | some o => check (clauses n rels o)
-
-/-- a failure on an input whose intermediates do not fit `isize` gets its own clause name
-    (known finding F-C14-overflow); `outside` = input outside the property's domain (large entries):
-    there the case is excluded instead (DESIGN §5.6). -/
-def withOverflow (verdict : String) (bound : Nat) (outside : Bool) : String :=
-  if verdict != ok && overflows bound then
-    (if outside then ok else fail "machine-integer-overflow")
-  else verdict
 
 def parseVariants : Nat → P (List (String × List (List Int)))
   | 0 => pure []
@@ -52,9 +38,8 @@ def handler : Handler := fun op inp out =>
   | "ainv" | "ainv_big" =>
     match run (do let n ← P.nat; let r ← P.intss; pure (n, r)) inp with
     | some (n, rels) =>
-      let (m, bound) := modelTok n rels
       let o := if out == #["PANIC"] then none else run P.nats out
-      (m, withOverflow (specOne n rels o) bound (op == "ainv_big"))
+      (modelTok n rels, specOne n rels o)
     | none => bad
   | "meta" =>
     match run (do
@@ -65,9 +50,7 @@ def handler : Handler := fun op inp out =>
         pure (n, base, vs)) inp with
     | some (n, base, vs) =>
       let all := base :: vs.map (·.2)
-      let ms := all.map (fun r => modelTok n r)
-      let bound := ms.foldl (fun b x => max b x.2) 0
-      let m := if ms.any (·.1 == "-") then "-" else joinToks (toString all.length :: ms.map (·.1))
+      let m := joinToks (toString all.length :: all.map (fun r => modelTok n r))
       let verdict : String :=
         match (if out == #["PANIC"] then none else run P.natss out) with
         | none => fail "panic-inside-the-domain"
@@ -86,7 +69,7 @@ def handler : Handler := fun op inp out =>
               let rowsOk := vs.all (fun v =>
                 !(v.1 == "rotate" || v.1 == "conjugate") || relMatrix n v.2 == relMatrix n base)
               check [("rotate-conjugate-keep-exponent-sums", rowsOk)]
-      (m, withOverflow verdict bound false)
+      (m, verdict)
     | none => bad
   | "rav" =>
     match run (do let n ← P.nat; let raw ← P.ints; let red ← P.ints; pure (n, raw, red)) inp with
